@@ -654,6 +654,18 @@ func c16Case(w *Worker, i int) {
 	if i%4 == 3 {
 		w.Exec(RunSpec{Scenario: "timeout", Index: i})
 	}
+	if i%4 == 1 {
+		mb := RunSpec{Scenario: "multi", Index: i}
+		mres := w.Exec(mb)
+		if mres.Steps > 2 && mres.BubblePanic == "" {
+			ms := Mix(w.Job.Seed, "C16/multi", i)
+			for k := 0; k < 2; k++ {
+				spec := mb
+				spec.Params = map[string]int{"crash_step": 1 + int(splitmix(&ms)%uint64(mres.Steps)), "fault": 1 + int(splitmix(&ms)%uint64(len(c16MultiFaults)-1)), "victim": int(splitmix(&ms) % 4)}
+				w.Exec(spec)
+			}
+		}
+	}
 	base := RunSpec{Scenario: "term", Index: i}
 	res := w.Exec(base)
 	if res.Steps < 2 || res.BubblePanic != "" {
@@ -864,5 +876,272 @@ func c16Timeout(r *Run) {
 			l = append(l, fmt.Sprintf("%s t0=%v pages=%v end=%v err=%v", o.tag, o.t0, o.pageAt, o.endAt, o.endErr != nil))
 		}
 		r.Sample = map[string]interface{}{"config": r.Config, "requests": l}
+	}
+}
+
+// ---- "multi": one server, several clients, AcceptAny / AllAcceptedClients, faults on one of them ----
+
+func init() {
+	Register(&Scenario{Name: "multi", Property: "C16", Body: c16Multi})
+}
+
+var c16MultiFaults = []string{"none", "server_close", "server_ctx_cancel", "client_close", "srvconn_close", "rst", "fin_to_client", "fin_to_server", "client_ctx_cancel"}
+
+func c16Multi(r *Run) {
+	const P = "C16"
+	r.InstallNetSeams()
+	T := r.T
+	v := r.DrawVersion()
+	C := 2 + T.Draw("clients", 2)
+	M := T.Draw("requests", 3)
+	maxConns := C + T.Draw("maxconns.extra", 2) - T.Draw("maxconns.tight", 2) // sometimes one less than needed
+	if maxConns < 1 {
+		maxConns = 1
+	}
+	useAcceptAny := T.Bool("acceptAny", 0.5)
+	opts := LinkOpts{Latency: ms([]int{0, 1, 20}[T.Draw("latency", 3)]), ChunkReads: T.Bool("chunkReads", 0.5)}
+	r.listenOpts = map[string]LinkOpts{"10.0.0.2:9042": opts}
+	fault, crashStep, victim := "none", -1, 0
+	if s, ok := r.Spec.Params["crash_step"]; ok && s >= 0 {
+		crashStep = s
+		fault = c16MultiFaults[r.Spec.Params["fault"]%len(c16MultiFaults)]
+		victim = r.Spec.Params["victim"] % C
+	}
+	r.Config["version"] = v.String()
+	r.Config["clients"] = fmt.Sprint(C)
+	r.Config["maxConnections"] = fmt.Sprint(maxConns)
+	r.Config["acceptAny"] = fmt.Sprint(useAcceptAny)
+	r.Config["fault"] = fmt.Sprintf("%s@%d victim=%d", fault, crashStep, victim)
+	st := &c16State{r: r, v: v}
+	srvCtx, srvStop := context.WithCancel(context.Background())
+	cliCtx := make([]context.Context, C)
+	cliStop := make([]context.CancelFunc, C)
+	for i := range cliCtx {
+		cliCtx[i], cliStop[i] = context.WithCancel(context.Background())
+	}
+	ccs := make([]*client.CqlClientConnection, C)
+	scs := make([]*client.CqlServerConnection, C)
+	var srv *client.CqlServer
+	type reqObs struct {
+		tag   string
+		req   client.InFlightRequest
+		final bool
+	}
+	var reqs []*reqObs
+	mainT := st.task("main")
+	var wg sync.WaitGroup
+	r.Go("main", func() {
+		defer func() { mainT.done = true }()
+		srv = client.NewCqlServer("10.0.0.2:9042", nil)
+		srv.MaxConnections = maxConns
+		srv.AcceptTimeout = 5 * time.Second
+		var err error
+		mainT.call(r, "Server.Start", func() { err = srv.Start(srvCtx) })
+		if err != nil {
+			return
+		}
+		for i := 0; i < C; i++ {
+			i := i
+			ct := st.task(fmt.Sprintf("client%d", i))
+			wg.Add(1)
+			r.Go(ct.name, func() {
+				defer func() { ct.done = true; wg.Done() }()
+				cl := client.NewCqlClient("10.0.0.2:9042", nil)
+				cl.MaxInFlight = 4
+				cl.ReadTimeout = 2 * time.Second
+				var cc *client.CqlClientConnection
+				var err error
+				ct.call(r, "Client.Connect", func() { cc, err = cl.Connect(cliCtx[i]) })
+				if err != nil || cc == nil {
+					return
+				}
+				ccs[i] = cc
+				var sc *client.CqlServerConnection
+				if useAcceptAny {
+					ct.call(r, "Server.AcceptAny", func() { sc, err = srv.AcceptAny() })
+				} else {
+					ct.call(r, "Server.Accept", func() { sc, err = srv.Accept(cc) })
+				}
+				if err == nil && sc != nil {
+					// with AcceptAny the returned connection may belong to another client: index by arrival
+					for k := range scs {
+						if scs[k] == nil {
+							scs[k] = sc
+							break
+						}
+					}
+					st2 := st.task(fmt.Sprintf("server%d", i))
+					wg.Add(1)
+					r.Go(st2.name, func() {
+						defer func() { st2.done = true; wg.Done() }()
+						st2.call(r, "AcceptHandshake", func() { err = sc.AcceptHandshake() })
+						for {
+							var f *frame.Frame
+							var err error
+							st2.call(r, "Server.Receive", func() { f, err = sc.Receive() })
+							if err != nil || f == nil {
+								return
+							}
+							st2.call(r, "Server.Send", func() { _ = sc.Send(pageFrame(v, f.Header.StreamId, queryTag(f), 0, 1)) })
+						}
+					})
+				}
+				ct.call(r, "InitiateHandshake", func() { err = cc.InitiateHandshake(v, client.ManagedStreamId) })
+				if err != nil {
+					return
+				}
+				for j := 0; j < M; j++ {
+					o := &reqObs{tag: fmt.Sprintf("c%d.q%d", i, j)}
+					reqs = append(reqs, o)
+					ct.call(r, "Send", func() { o.req, err = cc.Send(queryFrame(v, client.ManagedStreamId, o.tag)) })
+					if err != nil || o.req == nil {
+						continue
+					}
+					var fr *frame.Frame
+					ct.call(r, "Receive", func() { fr, err = cc.Receive(o.req) })
+					if err == nil && fr != nil {
+						o.final = true
+					}
+				}
+				if T.Bool("allAccepted", 0.3) {
+					ct.call(r, "AllAcceptedClients", func() { _, _ = srv.AllAcceptedClients() })
+				}
+			})
+		}
+		mainT.inCall = "wait clients"
+		wg.Wait()
+		r.Yield("clients.joined")
+		mainT.inCall = ""
+		for i, cc := range ccs {
+			if cc != nil {
+				i, cc := i, cc
+				mainT.call(r, fmt.Sprintf("Client%d.Close", i), func() { _ = cc.Close() })
+			}
+		}
+		mainT.call(r, "Server.Close", func() { _ = srv.Close() })
+		for _, stop := range cliStop {
+			stop()
+		}
+		srvStop()
+	})
+	if fault != "none" && crashStep >= 0 {
+		l := func() *Listener { return r.Net.ListenerAt("10.0.0.2:9042") }
+		r.OnStep(func(now int) bool {
+			if now < crashStep {
+				return false
+			}
+			closer := func(name string, f func()) {
+				t := st.task("closer")
+				r.Go("closer", func() {
+					defer func() { t.done = true }()
+					t.call(r, name, f)
+				})
+			}
+			switch fault {
+			case "server_close":
+				if srv == nil {
+					return false
+				}
+				closer("Server.Close", func() { _ = srv.Close() })
+			case "server_ctx_cancel":
+				srvStop()
+			case "client_ctx_cancel":
+				cliStop[victim]()
+			case "client_close":
+				if ccs[victim] == nil {
+					return false
+				}
+				closer("Client.Close", func() { _ = ccs[victim].Close() })
+			case "srvconn_close":
+				if scs[victim] == nil {
+					return false
+				}
+				closer("ServerConn.Close", func() { _ = scs[victim].Close() })
+			case "rst", "fin_to_client", "fin_to_server":
+				ls := l()
+				if ls == nil || len(ls.Clients) <= victim {
+					return false
+				}
+				switch fault {
+				case "rst":
+					ls.Clients[victim].Rst()
+				case "fin_to_client":
+					ls.Clients[victim].FinFromPeer()
+				default:
+					ls.Conns[victim].FinFromPeer()
+				}
+			}
+			r.Fault(fault)
+			return true
+		})
+	}
+	if !r.Drive() {
+		r.Violate(P, "liveness", "step-budget", "run did not quiesce")
+		return
+	}
+	r.Nontrivial = r.repoSwitches > 0
+	nBlocked := 0
+	for _, t := range st.tasks {
+		if !t.done && !strings.HasPrefix(t.inCall, "wait ") {
+			nBlocked++
+		}
+	}
+	allDone := true
+	for _, t := range st.tasks {
+		if !t.done {
+			allDone = false
+			if strings.HasPrefix(t.inCall, "wait ") && nBlocked > 0 {
+				continue
+			}
+			r.Violate(P, "returns", "blocked:"+t.stuckAt(), "multi-client session: task %s is still blocked in %q (last seen at %s) at quiescence (fault %s@%d victim %d)", t.name, t.inCall, t.stuckAt(), fault, crashStep, victim)
+		}
+	}
+	checked := false
+	var bad string
+	r.Go("oracle", func() {
+		for _, o := range reqs {
+			if o.req == nil {
+				continue
+			}
+			closed := false
+			ch := o.req.Incoming()
+		drain:
+			for {
+				select {
+				case f, ok := <-ch:
+					if !ok {
+						closed = true
+						break drain
+					}
+					if f != nil {
+						o.final = true
+					}
+				default:
+					break drain
+				}
+			}
+			if !closed {
+				bad = fmt.Sprintf("channel-open|request %s: Incoming() is not closed at quiescence", o.tag)
+			} else if !o.req.IsDone() {
+				bad = fmt.Sprintf("closed-not-done|request %s: closed but IsDone()==false", o.tag)
+			} else if !o.final && o.req.Err() == nil {
+				bad = fmt.Sprintf("closed-nil-err|request %s: closed without a response and Err()==nil", o.tag)
+			}
+			r.Yield("oracle.req")
+		}
+		checked = true
+	})
+	r.Drive()
+	if !checked {
+		r.Violate(P, "request-complete", "accessor-blocked", "request accessor blocked at quiescence")
+	} else if bad != "" {
+		parts := strings.SplitN(bad, "|", 2)
+		r.Violate(P, "request-complete", parts[0], "%s (fault %s@%d)", parts[1], fault, crashStep)
+	}
+	for _, t := range r.S.Live() {
+		if t.Repo && allDone {
+			r.Violate(P, "no-leak", fmt.Sprintf("leak:%s@%s", SiteFunc(t.Spawn), SiteFunc(t.At)),
+				"multi-client session: goroutine spawned at %s is still alive at quiescence, last seen at %s", t.Spawn, t.At)
+		}
 	}
 }
